@@ -92,6 +92,8 @@ func loadEngine(repo, verif string) (*Engine, error) {
 	}
 	e.db = db
 	// pre-register type tags of all concrete types converted to interfaces anywhere in the repo packages
+	var tagNames []string
+	tagTypesByName := map[string]types.Type{}
 	for fn := range ssautil.AllFunctions(prog) {
 		if fn.Pkg == nil || !strings.HasPrefix(fn.Pkg.Pkg.Path(), "github.com/enbility/spine-go") {
 			continue
@@ -99,10 +101,18 @@ func loadEngine(repo, verif string) (*Engine, error) {
 		for _, b := range fn.Blocks {
 			for _, ins := range b.Instrs {
 				if mi, ok := ins.(*ssa.MakeInterface); ok {
-					e.typeTag(mi.X.Type())
+					k := canonType(mi.X.Type())
+					if _, seen := tagTypesByName[k]; !seen {
+						tagTypesByName[k] = mi.X.Type()
+						tagNames = append(tagNames, k)
+					}
 				}
 			}
 		}
+	}
+	sort.Strings(tagNames)
+	for _, k := range tagNames {
+		e.typeTag(tagTypesByName[k])
 	}
 	return e, nil
 }
